@@ -73,6 +73,12 @@ CHECKS['C14'] = ('E-INTERP', 'engines/e_interp.py',
     'oracle reads the source arrays as they are (ghost creation is C07\'s subject) and the target h the interpolator holds; 1e-9 relative tolerance; order1 skipped where cond(moment) >= 1e6',
     'DESIGN.md section 3 E-INTERP')
 
+CHECKS['C03'] = ('E-GROUP', 'engines/e_group.py',
+    'deterministic simulation: a pool of generated group trees (tracing equations) executed by the real code generator + compiled program, serially and under a simulated loop schedule, with scripted condition answers / convergence thresholds / start-stop values; refinement check (exact equality of final states, constants and the pre/post/condition/py_initialize/reduce history) against a sequential reference interpreter calling the same Python methods',
+    'seeded search over (program from the pool, particle data incl. ghost-tagged particles, condition answers, convergence thresholds, named/numeric start-stop values, t/dt, periodic domain on/off, cache on/off, simulated schedule on/off); exact equality with the literal execution of the documented semantics (group order, hook order per destination and source, index ranges, real flag, iterate/min/max, condition, pre/post, update_nnps incl. ghost refresh, sub-groups). Sampling, not proof.',
+    'programs are from a generated family of 12 tracing equation classes (pool of 10 trees in quick, 120 in thorough), not arbitrary user code; neighbour order fixed by sort_gids; reference interpreter in engines/e_group.py',
+    'DESIGN.md section 3 E-GROUP')
+
 PENDING = {}
 
 
